@@ -926,3 +926,37 @@ func (s *Sim) ChooseWake(n int) int {
 func (s *Sim) RandIntn(n int) int {
 	return s.choose(KWork, n, func() int { return s.rng.intn(n) })
 }
+
+// OthersQuiescent reports whether no task other than the caller is runnable and
+// no timer is pending: if the caller does nothing either, no further step can
+// ever happen.
+func OthersQuiescent() bool {
+	s := active()
+	if s == nil {
+		return true
+	}
+	if len(s.timers) > 0 {
+		return false
+	}
+	for _, t := range s.tasks {
+		if t != s.cur && t.state == stRunnable {
+			return false
+		}
+	}
+	return true
+}
+
+// BlockedTasks returns a description of every blocked task.
+func BlockedTasks() []string {
+	s := cur
+	if s == nil {
+		return nil
+	}
+	var out []string
+	for _, t := range s.tasks {
+		if t.state == stBlocked {
+			out = append(out, fmt.Sprintf("task %d (%s) blocked on %s at %s", t.ID, t.Name, t.blockOn, SiteName(t.lastSite)))
+		}
+	}
+	return out
+}
